@@ -255,6 +255,19 @@ def wires {W : Type} : List (Event W) → List (Nat × W)
   | .wire ra w :: t => (ra, w) :: wires t
   | _ :: t => wires t
 
+/-- The calls the property counts: retry hooks and the interval function, with the attempt
+number they were given. -/
+inductive Call
+  | hook (id attempt : Nat)
+  | interval (attempt : Nat)
+deriving DecidableEq, Repr
+
+def calls {W : Type} : List (Event W) → List Call
+  | [] => []
+  | .hook id o :: t => .hook id o.attempt :: calls t
+  | .interval _ a _ :: t => .interval a :: calls t
+  | _ :: t => calls t
+
 /-! ### the specification the loop is compared with -/
 
 /-- The round-trip error of an outcome (what the default rule looks at). -/
